@@ -18,7 +18,7 @@
  * item[0] - pointer to the waiting process
  * item[1] - pointer to its demand function
  * item[2] - its context pointer
- * item[3] - not used here
+ * item[3] - its arrival number, the final tie-breaker of the queue order
  *
  * Copyright (c) Asbjørn M. Bonvik 2025.
  *
@@ -63,7 +63,7 @@ CMB_THREAD_LOCAL struct cmi_mempool observer_tagpool
 /*
  * guard_queue_check - Test if heap_tag *a should go before *b. If so, return true.
  * Ranking higher priority (dsortkey) before lower, FIFO based on entry time,
- * then in key (memory address) order.
+ * then in order of arrival.
  */
 static bool guard_queue_check(const struct cmi_heap_tag *a,
                               const struct cmi_heap_tag *b)
@@ -85,7 +85,8 @@ static bool guard_queue_check(const struct cmi_heap_tag *a,
         return false;
     }
 
-    if (a->key < b->key) {
+    /* Same priority, same entry time: in order of arrival (item[3]) */
+    if ((uintptr_t)(a->item[3]) < (uintptr_t)(b->item[3])) {
         return true;
     }
 
@@ -141,11 +142,14 @@ int64_t cmb_resourceguard_wait(struct cmb_resourceguard *rgp,
 
     const double entry_time = cmb_time();
     const int64_t priority = cmb_process_priority(pp);
+
+    /* The arrival number breaks ties between waiters of equal priority and entry time */
+    const uintptr_t arrival = (uintptr_t)(rgp->priority_queue.item_counter + 1u);
     const uint64_t key = cmi_hashheap_enqueue((struct cmi_hashheap *)rgp,
                                               (void *)pp,
                                               (void *)demand,
                                               (void *)ctx,
-                                              NULL,
+                                              (void *)arrival,
                                               (uint64_t)pp,
                                               entry_time,
                                               priority);
